@@ -239,23 +239,19 @@ Definition string_to_float (s : list N) : option (fval * list N) :=
     end
   end.
 
-(* ReadNumber<float>: the piece handed to ParseNumber ends at the last kSpaces byte of the mapping (the whole rest
-   when there is none); only its equality with "NaN" / "nan" matters *)
-Definition region (cur : list N) : list N :=
-  let r := rev cur in
-  match skip_while (fun c => negb (kSpaces c)) r with
-  | [] => cur                         (* no white space left: the buffer up to the end of the file *)
-  | _ :: before => rev before
-  end.
 (* ParseNumber returns str.data() + processed_characters_count: the cursor advances by the number of bytes the
    converter consumed *)
 Definition advance (r rest : list N) : cursor := skipn (length r - length rest) r.
+Definition consumed (r rest : list N) : list N := firstn (length r - length rest) r.
+(* ReadNumber<float> + ParseNumber (util/file_piece.cc since 5d32436): a NaN result is an error unless the characters the
+   converter consumed are exactly "NaN" (so "NaN" is read as a NaN; "-NaN", "+NaN", "nan" and every junk token -- zero
+   characters consumed -- raise ParseNumberException) *)
 Definition read_float (cur : cursor) : res (fval * cursor) :=
   do r <- skip_spaces kSpaces cur;
   match string_to_float r with
-  | Some (FNaN, rest) => if beq (region r) s_NaN then Ok (FNaN, advance r rest) else Err ParseNumber
+  | Some (FNaN, rest) => if beq (consumed r rest) s_NaN then Ok (FNaN, advance r rest) else Err ParseNumber
   | Some (v, rest) => Ok (v, advance r rest)
-  | None => if beq (region r) s_nan then Ok (FNaN, r) else Err ParseNumber
+  | None => Err ParseNumber
   end.
 
 Definition is_positive (v : fval) : bool := match v with FFin false | FInf false => true | _ => false end.
